@@ -182,7 +182,11 @@ def judge_one(ctx, case, M, v, Q, T, lam, d, mi, preds, tol_run):
         # early termination when the Krylov space is exhausted at a known dimension d
         # exhaustion is only judged where it is numerically clean: O(1), well-separated eigenvalues (for the log-spaced
         # family the vanishing direction is buried in amplified rounding noise above any requested tolerance)
-        if d is not None and cap >= d + 1 and tol_run <= 1e-5 and case["family"] != "log-indefinite":
+        # ... and only for tolerances above the rounding level of the vanishing direction (n eps ||A|| relative: with tol = 1e-12
+        # and n = 40 the residual after exhaustion, ~1e-12, is not below tol and the routine rightly continues); the exactly
+        # exhausted family (identically zero residual) is judged at every tolerance
+        detectable = 1e-9 <= tol_run <= 1e-5 or (case["family"] == "exact-kernel" and tol_run <= 1e-5)
+        if d is not None and cap >= d + 1 and detectable and case["family"] != "log-indefinite":
             ev = np.linalg.eigvalsh((Tl + Tl.conj().T) / 2)
             dist = [np.min(np.abs(lam - x)) for x in ev]  # every eigenvalue of T is an exact eigenvalue of A
             ctx.check("stops-when-exhausted", bool(kl <= d + 1), site="lanczos", preds=preds, detail={"columns": kl, "krylov_dim": d})
